@@ -47,22 +47,26 @@ theorem client_data_received_eq (env : Env) (s : CSt) (c : Bytes)
     | some i =>
       have hi := findCRLF_lt hf
       have hnn : ¬ ((i : Int) < 0) := by omega
+      have hge : (0 : Int) ≤ (i : Int) := by omega
+      have htn : ((i : Int)).toNat = i := by simp
+      have htn2 : ((i : Int) + ((crlf.length : Nat) : Int)).toNat = i + 2 := by simp [crlf]; omega
+      have htn3 : ((i : Int) + 2).toNat = i + 2 := by omega
       by_cases hlong : maxHeader < i
       · have hI : ((i : Int) > (maxHeader : Int)) := by omega
         simp [settle, tooLong, closeTransport, findInt, hasCRLF, hf, hlong, hI, hnn]
       · have hI : ¬ ((i : Int) > (maxHeader : Int)) := by omega
         cases hu : env.utf8Ok (List.take i (buf ++ c))
-        · simp [settle, crash, onHeader, findInt, hasCRLF, cutCRLF, decodeE, hf, hlong, hI, hnn, hu]
+        · simp [settle, crash, onHeader, findInt, hasCRLF, cutCRLF, decodeE, hf, hlong, hI, hnn, hge, htn, htn2, htn3, crlf, hu]
         · cases hst : (parseHeader ⟨buf ++ c, false, status, mta, fut, false, false, false, dt⟩ (List.take i (buf ++ c))).status with
           | none =>
-            simp [settle, onHeader, afterHeader, closeTransport, findInt, hasCRLF, cutCRLF, decodeE, hf, hlong, hI, hnn, hu, hst]
+            simp [settle, onHeader, afterHeader, closeTransport, findInt, hasCRLF, cutCRLF, decodeE, hf, hlong, hI, hnn, hge, htn, htn2, htn3, crlf, hu, hst]
           | some st =>
             by_cases h2x : 20 ≤ st ∧ st < 30
             · by_cases hcap : maxBody < buf.length + c.length - (i + 2)
-              · simp [settle, onHeader, afterHeader, capCheck, closeTransport, findInt, hasCRLF, cutCRLF, decodeE, hf, hlong, hI, hnn, hu, hst, h2x, hcap]
-              · simp [settle, onHeader, afterHeader, capCheck, closeTransport, findInt, hasCRLF, cutCRLF, decodeE, hf, hlong, hI, hnn, hu, hst, h2x, hcap]
+              · simp [settle, onHeader, afterHeader, capCheck, closeTransport, findInt, hasCRLF, cutCRLF, decodeE, hf, hlong, hI, hnn, hge, htn, htn2, htn3, crlf, hu, hst, h2x, hcap]
+              · simp [settle, onHeader, afterHeader, capCheck, closeTransport, findInt, hasCRLF, cutCRLF, decodeE, hf, hlong, hI, hnn, hge, htn, htn2, htn3, crlf, hu, hst, h2x, hcap]
             · have h2x' : st < 20 ∨ 30 ≤ st := by omega
-              simp [settle, onHeader, afterHeader, closeTransport, findInt, hasCRLF, cutCRLF, decodeE, hf, hlong, hI, hnn, hu, hst, h2x, h2x']
+              simp [settle, onHeader, afterHeader, closeTransport, findInt, hasCRLF, cutCRLF, decodeE, hf, hlong, hI, hnn, hge, htn, htn2, htn3, crlf, hu, hst, h2x, h2x']
 /-- `TitanClientProtocol.data_received` (uploads): on every state in which the transport still delivers data (not closed, not aborted, not lost) and every chunk,
     the translated `data_received` does what the model's `onData` does -/
 theorem titan_client_data_received_eq (env : Env) (s : CSt) (c : Bytes)
@@ -93,20 +97,24 @@ theorem titan_client_data_received_eq (env : Env) (s : CSt) (c : Bytes)
     | some i =>
       have hi := findCRLF_lt hf
       have hnn : ¬ ((i : Int) < 0) := by omega
+      have hge : (0 : Int) ≤ (i : Int) := by omega
+      have htn : ((i : Int)).toNat = i := by simp
+      have htn2 : ((i : Int) + ((crlf.length : Nat) : Int)).toNat = i + 2 := by simp [crlf]; omega
+      have htn3 : ((i : Int) + 2).toNat = i + 2 := by omega
       by_cases hlong : maxHeader < i
       · have hI : ((i : Int) > (maxHeader : Int)) := by omega
         simp [settle, tooLong, closeTransport, findInt, hasCRLF, hf, hlong, hI, hnn]
       · have hI : ¬ ((i : Int) > (maxHeader : Int)) := by omega
         cases hu : env.utf8Ok (List.take i (buf ++ c))
-        · simp [settle, crash, onHeader, findInt, hasCRLF, cutCRLF, decodeE, hf, hlong, hI, hnn, hu]
+        · simp [settle, crash, onHeader, findInt, hasCRLF, cutCRLF, decodeE, hf, hlong, hI, hnn, hge, htn, htn2, htn3, crlf, hu]
         · cases hst : (parseHeader ⟨buf ++ c, false, status, mta, fut, false, false, false, dt⟩ (List.take i (buf ++ c))).status with
           | none =>
-            simp [settle, onHeader, afterHeader, closeTransport, findInt, hasCRLF, cutCRLF, decodeE, hf, hlong, hI, hnn, hu, hst]
+            simp [settle, onHeader, afterHeader, closeTransport, findInt, hasCRLF, cutCRLF, decodeE, hf, hlong, hI, hnn, hge, htn, htn2, htn3, crlf, hu, hst]
           | some st =>
             by_cases h2x : 20 ≤ st ∧ st < 30
             · by_cases hcap : maxBody < buf.length + c.length - (i + 2)
-              · simp [settle, onHeader, afterHeader, capCheck, closeTransport, findInt, hasCRLF, cutCRLF, decodeE, hf, hlong, hI, hnn, hu, hst, h2x, hcap]
-              · simp [settle, onHeader, afterHeader, capCheck, closeTransport, findInt, hasCRLF, cutCRLF, decodeE, hf, hlong, hI, hnn, hu, hst, h2x, hcap]
+              · simp [settle, onHeader, afterHeader, capCheck, closeTransport, findInt, hasCRLF, cutCRLF, decodeE, hf, hlong, hI, hnn, hge, htn, htn2, htn3, crlf, hu, hst, h2x, hcap]
+              · simp [settle, onHeader, afterHeader, capCheck, closeTransport, findInt, hasCRLF, cutCRLF, decodeE, hf, hlong, hI, hnn, hge, htn, htn2, htn3, crlf, hu, hst, h2x, hcap]
             · have h2x' : st < 20 ∨ 30 ≤ st := by omega
-              simp [settle, onHeader, afterHeader, closeTransport, findInt, hasCRLF, cutCRLF, decodeE, hf, hlong, hI, hnn, hu, hst, h2x, h2x']
+              simp [settle, onHeader, afterHeader, closeTransport, findInt, hasCRLF, cutCRLF, decodeE, hf, hlong, hI, hnn, hge, htn, htn2, htn3, crlf, hu, hst, h2x, h2x']
 end NauyacaVerif.Translated
